@@ -1,7 +1,7 @@
 from shexer.io.graph.yielder.base_triples_yielder import BaseTriplesYielder
 from shexer.consts import RDF_TYPE
 from shexer.utils.triple_yielders import tune_token, tune_prop, tune_subj
-from shexer.utils.uri import add_corners_if_needed, add_corners_if_it_is_an_uri
+from shexer.utils.uri import add_corners_if_needed, add_corners_if_it_is_an_uri, remove_corners
 
 
 class SgraphFromSelectorsTripleYielder(BaseTriplesYielder):
@@ -34,18 +34,19 @@ class SgraphFromSelectorsTripleYielder(BaseTriplesYielder):
 
 
     def _yield_relevant_sgraph_triples(self, target_nodes, sgraph):
-        for a_triple in self._yield_relevant_direct_triples(target_nodes, sgraph):
+        nodes_with_direct_triples = set()  # every outgoing triple of these nodes is yielded by the direct exploration
+        for a_triple in self._yield_relevant_direct_triples(target_nodes, sgraph, nodes_with_direct_triples):
             yield a_triple
         if self._inverse_paths:
-            for a_triple in self._yield_relevant_inverse_triples(target_nodes, sgraph):
+            for a_triple in self._yield_relevant_inverse_triples(target_nodes, sgraph, nodes_with_direct_triples):
                 yield a_triple
 
-    def _yield_relevant_direct_triples(self, target_nodes, sgraph):
+    def _yield_relevant_direct_triples(self, target_nodes, sgraph, visited_nodes=None):
         for s, p, o in sgraph.yield_p_o_triples_of_target_nodes(target_nodes=target_nodes,
                                                                 depth=self._depth,
                                                                 classes_at_last_level=self._classes_at_last_level,
                                                                 instantiation_property=self._instantiation_property,
-                                                                already_visited=None,
+                                                                already_visited=visited_nodes,
                                                                 strict_syntax_with_uri_corners=self._strict_syntax_with_corners):
             yield (tune_subj(a_token=add_corners_if_it_is_an_uri(s)),
                    tune_prop(a_token=add_corners_if_needed(p)),
@@ -53,23 +54,17 @@ class SgraphFromSelectorsTripleYielder(BaseTriplesYielder):
                               allow_untyped_numbers=self._allow_untyped_numbers)
                    )
 
-    def _yield_relevant_inverse_triples(self, target_nodes, sgraph):
+    def _yield_relevant_inverse_triples(self, target_nodes, sgraph, nodes_with_direct_triples=None):
         for s, p, o in sgraph.yield_s_p_triples_of_target_nodes(target_nodes=target_nodes,
                                                                 depth=self._depth,
                                                                 classes_at_last_level=self._classes_at_last_level,
                                                                 instantiation_property=self._instantiation_property,
                                                                 already_visited=None,
                                                                 strict_syntax_with_uri_corners=self._strict_syntax_with_corners):
+            if nodes_with_direct_triples and remove_corners(a_uri=s, raise_error_if_no_corners=False) in nodes_with_direct_triples:
+                continue  # a triple between two explored nodes was already yielded as an outgoing triple of its subject
             yield (tune_subj(a_token=add_corners_if_it_is_an_uri(s)),
                    tune_prop(a_token=add_corners_if_needed(p)),
                    tune_token(a_token=add_corners_if_it_is_an_uri(o),
                               allow_untyped_numbers=self._allow_untyped_numbers)
                    )
-
-
-
-
-
-
-
-
